@@ -20,12 +20,15 @@ for name in sorted(idx, key=lambda n: (n.split("-")[0], "r2" in n, n)):
         m = re.match(r"rule=(\S+)", fr)
         det.append(f"{m.group(1) if m else p}")
     own = e["property"] in e.get("detected_by", [])
-    rows.append(f"| {name} | {files} | {summ} | {', '.join(det) or '—'} | {'own' if own else ('other only' if det else 'MISSED')} |")
+    exit2 = e["property"] in e.get("not_recognised_by", [])
+    rows.append(f"| {name} | {files} | {summ} | {', '.join(det) or '—'} | {'own' if own else ('other only' if det else ('exit 2' if exit2 else 'MISSED'))} |")
 table = ["| seed | file(s) | change (agent's summary, truncated) | first rule reporting it, per detecting check | by |", "|---|---|---|---|---|"] + rows
 n_own = sum(1 for r in rows if r.endswith("| own |"))
 n_other = sum(1 for r in rows if r.endswith("| other only |"))
 n_miss = sum(1 for r in rows if r.endswith("| MISSED |"))
-head = f"{len(rows)} confirmed seeded changes: {n_own} reported by the check of their own property, {n_other} only by another property's check, {n_miss} missed.\n\n"
+n_e2 = sum(1 for r in rows if r.endswith("| exit 2 |"))
+head = (f"{len(rows)} confirmed seeded changes: {n_own} reported (exit 1) by the check of their own property, {n_other} only by another property's check, "
+        f"{n_e2} answered with exit 2 (idiom not recognised — the check fails but gives no verdict), {n_miss} missed (exit 0).\n\n")
 p = os.path.join(ROOT, "DESIGN.md")
 s = open(p).read()
 a, b = "<!-- CATCHES:BEGIN -->", "<!-- CATCHES:END -->"
